@@ -373,6 +373,8 @@ pub fn session_strategy() -> impl Strategy<Value = SessionCase> {
         1 => Just(Line::Raw(b":0200030407F1".to_vec())),
         1 => Just(Line::Raw(b"noise".to_vec())),
         1 => proptest::collection::vec(any::<u8>(), 0..12).prop_map(Line::Raw),
+        1 => proptest::sample::select(vec![254usize, 255]).prop_map(|n| Line::Msg(M::Data { off: 0x20, data: vec![0x5A; n] })),
+        1 => proptest::sample::select(vec![250usize, 255]).prop_map(|n| Line::Msg(M::Unknown { addr: 9, ty: 0x77, data: vec![0x11; n] })),
     ];
     (
         proptest::collection::vec(msg, 1..=6),
@@ -412,6 +414,7 @@ fn reply_line_strategy() -> impl Strategy<Value = Line> {
         5 => (a(), 0u8..6).prop_map(|(a, o)| Line::Msg(M::Ack(a, o))),
         2 => any_msg_strategy().prop_map(Line::Msg),
         1 => Just(Line::Raw(vec![])),
+        1 => (addr_strategy(), proptest::sample::select(vec![127usize, 254, 255])).prop_map(|(a, n)| Line::Msg(M::Data { off: a, data: vec![0xA5; n] })),
         1 => Just(Line::Raw(b":01000304FF".to_vec())),
         1 => Just(Line::Raw(b":0100030407F0".to_vec())),
         1 => Just(Line::Raw(b":0200030407F1".to_vec())),
@@ -522,6 +525,17 @@ pub fn run(ctx: &Ctx) {
                     read_error_at: None,
                 });
             }
+        }
+    }
+    for n in [253usize, 254, 255] {
+        for first in [M::Hello(3), M::Req(3, 0)] {
+            sessions.push(SessionCase {
+                msgs: vec![first.clone(), M::Query(3), M::Query(3)],
+                tape: vec![Line::Msg(M::Data { off: 0, data: vec![0xEE; n] }), Line::Msg(M::Report(3, 2)), Line::Msg(M::Unknown { addr: 1, ty: 9, data: vec![7; n] })],
+                crlf: true,
+                timeout_at_end: false,
+                read_error_at: None,
+            });
         }
     }
     {
